@@ -13,6 +13,7 @@ from .summaries import OPTION, some, NONE
 
 END = object()
 DEAD = object()
+SKIP = object()     # an element a filter rejected (only handed to callers that asked for it: the iterator stays at one position per pull)
 
 ADAPT_NEXT = (r"^<core::iter::adapters::\w+::\w+<.*> as core::iter::traits::(iterator::Iterator|double_ended::DoubleEndedIterator)>::next(_back)?$"
               r"|^<core::slice::iter::Iter(Mut)?<'a, T> as core::iter::traits::iterator::Iterator>::next$"
@@ -201,7 +202,7 @@ def register(S):
     def elem_ref(base, i):
         return RefVal(base.loc[:-1] + (base.loc[-1] + (("i", i),),), False)
 
-    def pull(ip, st, it, back=False):
+    def pull(ip, st, it, back=False, skip_ok=False):
         if isinstance(it, Opaque) and it.kind == "vec_iter":
             elems = it.get("elems")
             pos = it.get("pos")
@@ -236,16 +237,16 @@ def register(S):
         if (isinstance(it, AdtVal) and it.path == "core::ops::range::Range") or (isinstance(it, Opaque) and it.kind == "range_incl"):
             return S.range_pull(ip, st, it)
         if isinstance(it, Opaque) and it.kind == "adapt":
-            return pull_adapt(ip, st, it, back)
+            return pull_adapt(ip, st, it, back, skip_ok=skip_ok)
         raise Inconclusive("iterator model: cannot advance %r" % (it,))
 
     S.iter_pull = pull
 
-    def pull_adapt(ip, st, it, back, fuel=64):
+    def pull_adapt(ip, st, it, back, fuel=64, skip_ok=False):
         op = it.get("op")
         inner = it.get("inner")
         if op == "rev":
-            return [(s, it.set(inner=i2) if e is not DEAD else it, e) for s, i2, e in pull(ip, st, inner, not back)]
+            return [(s, it.set(inner=i2) if e is not DEAD else it, e) for s, i2, e in pull(ip, st, inner, not back, skip_ok)]
         if op == "take":
             if it.get("n") is None:
                 raise Inconclusive("take(n) with a non-constant n")
@@ -290,13 +291,17 @@ def register(S):
                         outs.append((s3, it.set(inner=i2, other=o2), TupleVal([e, e2])))
             return outs
         outs = []
-        for s, i2, e in pull(ip, st, inner, back):
+        pass_skip = skip_ok and op in ("map", "filter", "filter_map", "copied", "cloned", "enumerate")
+        for s, i2, e in pull(ip, st, inner, back, pass_skip):
             it2 = it.set(inner=i2)
             if e is DEAD:
                 outs.append((s, it, DEAD))
                 continue
             if e is END:
                 outs.append((s, it2, END))
+                continue
+            if e is SKIP:
+                outs.append((s, it2, SKIP))
                 continue
             if op == "enumerate":
                 k = it.get("idx")
@@ -316,6 +321,8 @@ def register(S):
                     for s3, truth in split_bool(ip, s2, rv):
                         if truth:
                             outs.append((s3, it2, ip.read_loc(s3, eref.loc)))
+                        elif skip_ok:
+                            outs.append((s3, it2, SKIP))
                         elif fuel > 0:
                             outs.extend(pull_adapt(ip, s3, it2, back, fuel - 1))
                         else:
@@ -360,6 +367,8 @@ def register(S):
                     for s3, pv in split_option(ip, s2, rv):
                         if pv is not END:
                             outs.append((s3, it2, pv))
+                        elif skip_ok:
+                            outs.append((s3, it2, SKIP))
                         elif fuel > 0:
                             outs.extend(pull_adapt(ip, s3, it2, back, fuel - 1))
                         else:
@@ -449,16 +458,28 @@ def register(S):
         work = [(st, it, acc0)]
         done = []
         n = 0
+
+        def has_filter(x):
+            while isinstance(x, Opaque) and x.kind == "adapt":
+                if x.get("op") in ("filter", "filter_map"):
+                    return True
+                x = x.get("inner")
+            return False
+        filt = has_filter(it)
         while work:
             s, i, acc = work.pop()
             n += 1
             if n > limit:
                 raise Inconclusive("iterator model: drain limit")
-            for s2, i2, e in pull(ip, s, i):
+            s_pre = s.copy() if filt else None
+            cont = []
+            for s2, i2, e in pull(ip, s, i, skip_ok=True):
                 if e is DEAD:
                     done.append((s2, DEAD, None))
                 elif e is END:
                     done.append((s2, acc, True))
+                elif e is SKIP:
+                    cont.append((s2, i2, acc))
                 else:
                     for s3, acc3, stop in step(s2, acc, e):
                         if acc3 is DEAD:
@@ -466,8 +487,43 @@ def register(S):
                         elif stop:
                             done.append((s3, acc3, False))
                         else:
-                            work.append((s3, i2, acc3))
+                            cont.append((s3, i2, acc3))
+            if s_pre is not None and len(cont) == 2:
+                m = mux_pair(ip, s_pre, cont[0], cont[1])
+                if m is not None:
+                    cont = [m]
+            work.extend(cont)
         return done
+
+    def mux_pair(ip, s_pre, a, b):
+        """two continuations of one element that differ by a single decision on one input-bit expression (kept / rejected by a filter)
+        are merged into one state whose values are multiplexed on that bit - as the interpreter does at the join of an if"""
+        from .values import fp as _fp
+        (sa, ia, acca), (sb, ib, accb) = a, b
+        VALS = (IntVal, AdtVal, TupleVal, ArrayVal, RefVal, Opaque)
+        if not isinstance(acca, VALS) or not isinstance(accb, VALS):
+            return None
+        if sa.status != "run" or sb.status != "run" or _fp(ia) != _fp(ib):
+            return None
+        n0 = len(s_pre.pc.log)
+        da, db = sa.pc.log[n0:], sb.pc.log[n0:]
+        if len(da) != 1 or len(db) != 1 or da[0][0] != "lin" or db[0][0] != "lin" or da[0][1] != db[0][1] or da[0][2] == db[0][2]:
+            return None
+        e = (da[0][1], da[0][2] ^ 1)      # `sa` is the arm on which e = 1
+        cid = max(sa.next_id, sb.next_id) + 1
+        sa.heap[cid] = acca
+        sb.heap[cid] = accb
+        ip._mux_tags = frozenset()
+        m = ip.mux_states(s_pre, e, sa, sb)
+        sa.heap.pop(cid, None)
+        sb.heap.pop(cid, None)
+        if m is None:
+            return None
+        acc = m.heap.pop(cid, None)
+        if acc is None:
+            return None
+        m.next_id = max(m.next_id, cid + 1)
+        return (m, ia, acc)
 
     def finish(ctx, results, value_of):
         outs = []
